@@ -106,7 +106,7 @@ class Exec(Sem):
         self.bi = Builtins(self)
 
     # ================================================================ feasibility
-    def feasible(self, st, cond):
+    def feasible(self, st, cond, strong=False):
         if cond == "false":
             return False
         if cond == "true":
@@ -114,6 +114,11 @@ class Exec(Sem):
         if self.cx.pruner is None:
             return True
         r = self.cx.pruner(self.cx, st.pc + (cond,))
+        if r == "unknown" and strong:
+            # an alternative of a dynamic dispatch that the quick in-process check leaves open (strings, quantified
+            # ghost state): ask the command-line back ends before executing a callee the receiver cannot have
+            from . import solve
+            r = solve.solve_one(self.cx.sat_query(st.pc + (cond,)), timeout_s=3.0)["status"]
         if r == "unsat":
             self.cx.dead_paths += 1
             return False
@@ -1358,7 +1363,18 @@ class Exec(Sem):
         return exec_while(self, s, st, k, ctl)
 
     def ex_With(self, s, st, k, ctl):
-        raise Unsupported("with", s)
+        # only `with <expr> as <name>:` where <expr> is a stream (Handle): __enter__ returns the stream itself,
+        # __exit__ closes it (buffering is not modelled, so close is a no-op) and never swallows an exception,
+        # so the body runs with the name bound and every exit - normal, return, exceptional - passes through unchanged
+        if len(s.items) != 1 or s.items[0].optional_vars is None or not isinstance(s.items[0].optional_vars, ast.Name):
+            raise Unsupported("with (other than `with <stream> as <name>`)", s)
+        name = s.items[0].optional_vars.id
+
+        def got(s2, v):
+            if not (isinstance(v, SV) and v.ty.kind == "handle"):
+                raise Unsupported("with over a context manager that is not a stream", s)
+            return self.ex(s.body, s2.bind(name, v), k, ctl)
+        return self.ev(s.items[0].context_expr, st, got, ctl)
 
     def ex_Assert(self, s, st, k, ctl):
         raise Unsupported("assert", s)
